@@ -10,9 +10,6 @@ SUM_TOL = 1e-3       # the property's own tolerance on the total
 SCALE_TOL = 1e-3     # memberships under rescaling of the distances
 
 
-def regen(ctx):
-    regen_mod.regen(ctx)
-
 
 def psum64(dists, rho, sigma):
     d = dists[1:].astype(np.float64) - float(rho)
